@@ -15,6 +15,7 @@ EXPLANATION = (
     "wins; the candidate iterator covers names and ALL aliases (get_all_aliases / get_all_long_flag_aliases / Arg::aliases). "
     "R8.4 the escape token itself changes nothing but the mode: in Parser::parse the region entered on is_escape() calls no ArgMatcher/Parser mutator other than start_trailing (in particular it does not resolve the pending positional, so `a -- b` groups values like `a b`). R8.2b alias siblings: aliases_to / short_flag_aliases_to / long_flag_aliases_to answer `primary spelling || any(all aliases)` on every path. NOT decided: equality of matches under rewrites (needs execution)."
     ' R8.3 (added): inference candidates are drawn from every subcommand/argument (no pre-filter) and a subcommand lookup answers only with the unique inferred candidate or the exact name (return-value census).'
+    ' R8.6: Parser::parse canonicalises the subcommand text through find_subcommand(..).get_name() before dispatching to parse_subcommand.'
 )
 TRUSTED = ["rustc MIR", "clapfacts"]
 ASSUMPTIONS = ["C13 R13.3 (split at the first `=`) and C02 R2.4 (short attached value) are checked by their own properties too"]
@@ -80,6 +81,9 @@ def inference_candidates(fx, res, rule):
                 continue
             if isinstance(rv, dict) and rv["k"] == "agg" and rv.get("variant") == "Some" and re.fullmatch(exact_rx, expr(b, rv["ops"][0])):
                 continue
+            if isinstance(rv, Call) and rv.is_(r"Option(<[^>]*>)?::map$") and fn_ == "possible_subcommand" and re.fullmatch(r"find_subcommand\(self\.cmd,.*\)", expr(b, rv.args[0])) \
+                    and all(re.fullmatch(r"get_name\(\w+\)", expr(cb, 0)) for cb in closure_bodies(fx, rv)[-1:]):
+                continue        # find_subcommand(arg).map(|sc| sc.get_name()): the same exact-name answer
             what = expr(b, rv["op"]) if isinstance(rv, dict) and rv["k"] == "use" else (expr(b, rv["ops"][0]) if isinstance(rv, dict) and rv.get("ops") else str(rv))
             res.violation(rule, "lookup-answers|" + fn_, "%s bb%d" % (b.where(), d[0]), "%s can also answer %s: a token is taken for a subcommand although it is neither its exact name/alias nor a unique prefix (another spelling of an existing name, a value of a positional ...)" % (fn_, what[:120]))
 
@@ -168,6 +172,15 @@ def run(ctx):
     res.check(not tree_calls(b, r"Command::get_aliases$", r"Command::get_visible_aliases$"), "R8.3", "no-partial-alias-set|possible_subcommand", b.where(), "no visible-only / hidden-only alias iterator used",
               "possible_subcommand infers from a partial alias set (get_aliases/get_visible_aliases)")
 
+    # ---- R8.6 dispatch by canonical name: what the lookups hand to `parse` may be an ALIAS text (the inference branch returns the matched
+    # alias), while parse_subcommand/_build_subcommand find a subcommand by its NAME only — so `parse` must canonicalise at the dispatch
+    pp_ = fx.body("clap_builder::parser::parser::Parser::parse")
+    disp = pp_.calls_to(r"Parser::parse_subcommand$")
+    res.floor("R8.6", "parse_subcommand dispatch in parse", len(disp), 1)
+    for c in disp:
+        e = expr(pp_, c.args[1])
+        res.check(re.fullmatch(r"(to_owned|to_string|clone|into)\(get_name\((expect|unwrap)\(find_subcommand\(self\.cmd,.*\).*\)\)\)", e) is not None, "R8.6", "dispatch-by-canonical-name", c.where(),
+                  "parse_subcommand(find_subcommand(name).get_name())", "parse dispatches to parse_subcommand(%s): the text is not canonicalised through find_subcommand(..).get_name(); an alias (or a prefix of one, under inference) selects no subcommand and the rest of the line is silently dropped" % e[:120])
     alias_siblings(fx, res, "R8.2")
     # ---- R8.4 `--` only switches the mode
     pp = fx.body("clap_builder::parser::parser::Parser::parse")
